@@ -8,8 +8,11 @@ Ltac inv H := inversion H; subst; clear H.
 Section Generic.
   Variable is_repo : string -> bool.
   Variable git_new : loader -> string -> res loader.
-  Variable parse_kust : string -> res (pdirs * list string).
-  Variable parse_docs : string -> res (list node).
+  Variables T D Docs : Type.
+  Variable mk_file : Docs -> T.
+  Variable mk_dir : string -> D -> list T -> T.
+  Variable parse_kust : string -> res (D * list string).
+  Variable parse_docs : string -> res Docs.
   Variable fs : fsops.
   (* an invariant of loaders and what it guarantees for a read *)
   Variable inv : loader -> Prop.
@@ -30,10 +33,11 @@ Section Generic.
   Qed.
 
   Theorem load_tree_reads_ok fuel : forall l t evs,
-    inv l -> load_tree is_repo git_new parse_kust parse_docs fuel fs l = Ok (t, evs) -> Forall ev_ok evs.
+    inv l -> load_tree_gen T D Docs mk_file mk_dir is_repo git_new parse_kust parse_docs fuel fs l = Ok (t, evs) ->
+    Forall ev_ok evs.
   Proof.
     induction fuel as [|f IH]; intros l t evs Hi H; [discriminate|].
-    cbn [load_tree] in H.
+    cbn [load_tree_gen] in H.
     destruct (load_ev fs l kust_file) as [ke| | |] eqn:K; try discriminate. cbn [bind] in H.
     destruct (parse_kust (ev_bytes ke)) as [kd| | |]; try discriminate. cbn [bind] in H.
     match type of H with bind (?G (snd kd)) _ = _ => set (go := G) in * end.
@@ -106,7 +110,7 @@ Section Instances.
     Forall (fun e => exists l0, linv l0 /\ ev_root e = l_root l0 /\ mem_good m l0 (ev_path e) (ev_bytes e)) evs.
   Proof.
     intros Hwf Hi H.
-    eapply (load_tree_reads_ok is_repo git_new parse_kust parse_docs (mem_ops m) linv (mem_good m)); eauto.
+    eapply (load_tree_reads_ok is_repo git_new _ _ _ PFile PDir parse_kust parse_docs (mem_ops m) linv (mem_good m)); eauto.
     - intros l0 p q b [Hr (rc & Hc & Hroot)] R F.
       destruct (mem_load_confined never_remote no_http m l0 p b rc Hwf Hc Hroot Hr eq_refl (load_of_parts _ _ _ _ _ R F))
         as (cs & R' & Ha & Hp).
@@ -120,7 +124,7 @@ Section Instances.
     Forall (fun e => exists l0, linv l0 /\ ev_root e = l_root l0 /\ disk_good root l0 (ev_path e) (ev_bytes e)) evs.
   Proof.
     intros Hd Hwf Hi H.
-    eapply (load_tree_reads_ok is_repo git_new parse_kust parse_docs (disk_ops root cwd) linv (disk_good root)); eauto.
+    eapply (load_tree_reads_ok is_repo git_new _ _ _ PFile PDir parse_kust parse_docs (disk_ops root cwd) linv (disk_good root)); eauto.
     - intros l0 p q b [Hr (rc & Hc & Hroot)] R F.
       destruct (disk_load_confined never_remote no_http root cwd l0 p b rc Hd Hwf Hc Hroot Hr eq_refl (load_of_parts _ _ _ _ _ R F))
         as (phys & R' & Ha & Hp).
